@@ -56,11 +56,16 @@ theorem year_of_jdn_inI32 (ρ : Rule) (j y : Int) (m : Month) (d : Int) (hj : In
 
 /-- **`Calendar::reforming` succeeds only with a well-formed gap.** -/
 theorem mk_reform (R : Int) (hR : InI32 R) (c : Calendar) (h : Calendar.mkReforming R = .ok c) :
-    ∃ rf : Reform, c = rf.cal ∧ rf.R = R := by
+    ∃ rf : Reform, c = rf.cal ∧ rf.R = R ∧ InI32 (R - 1) := by
   simp only [Calendar.mkReforming] at h
   split at h
   · cases h
-  · obtain ⟨yP, mP, dP, hatP, hdP⟩ := ruleCal_atJdn .julian (R - 1)
+  · rename_i hR1
+    have hR1' : InI32 (R - 1) := by
+      cases hh : inI32 (R - 1)
+      · simp [hh] at hR1
+      · exact (inI32_iff _).mp hh
+    obtain ⟨yP, mP, dP, hatP, hdP⟩ := ruleCal_atJdn .julian (R - 1)
     obtain ⟨yQ, mQ, dQ, hatQ, hdQ⟩ := ruleCal_atJdn .gregorian R
     simp only [ruleCal] at hatP hatQ
     rw [hatP, hatQ] at h
@@ -94,7 +99,7 @@ theorem mk_reform (R : Int) (hR : InI32 R) (c : Calendar) (h : Calendar.mkReform
       · rw [if_neg hle] at h
         injection h with h
         subst h
-        refine ⟨⟨R, yP, mP, dP, yQ, mQ, dQ, hdP, hdQ, ?_⟩, ?_, rfl⟩
+        refine ⟨⟨R, yP, mP, dP, yQ, mQ, dQ, hdP, hdQ, ?_⟩, ?_, rfl, hR1'⟩
         · simp only [jdnOf]; omega
         · simp only [Reform.cal, mkGap]
           cases hk : GapKind.forDates yP mP yQ mQ <;> rfl
